@@ -216,10 +216,11 @@ class Explorer:
         decide_for(node, state, ex) -> None | 'iter' | 'done'   (force a loop decision)
     """
 
-    def __init__(self, cfg: CFG, rule, entry_consts: Optional[Dict[str, object]] = None, max_states=3_000_000, follow_exc=True):
+    def __init__(self, cfg: CFG, rule, entry_consts: Optional[Dict[str, object]] = None, max_states=3_000_000, follow_exc=True, entry_valuation=None):
         self.cfg = cfg
         self.rule = rule
         self.entry_consts = dict(entry_consts or {})
+        self.entry_valuation = frozenset((entry_valuation or {}).items())
         self.max_states = max_states
         self.follow_exc = follow_exc
         self.visited = {}
@@ -256,7 +257,7 @@ class Explorer:
     def run(self):
         cfg = self.cfg
         rule = self.rule
-        start = (cfg.entry.id, rule.init_state(), frozenset(), frozenset(self.entry_consts.items()))
+        start = (cfg.entry.id, rule.init_state(), self.entry_valuation, frozenset(self.entry_consts.items()))
         self.visited[start] = (None, None)
         stack = [start]
         has_edge = hasattr(rule, "edge")
